@@ -115,13 +115,13 @@ theorem validateRest_ok {pb dep : Bool} {p : PathV} {prim : Option Str} {r : Pat
     r.self = p ∧ r.primary = prim ∧ r.newUsers = (if dep then pathUsers p else []) ∧
     ∀ k ∈ pcRest pb, k.2 p = true := by
   simp only [validateRest, chk_ok] at h
-  obtain ⟨h1, h2, h3, h4, h5, h6, h7, h8, h9, h10, h11, h12, h13, h14, h15, h16, h17, h18, h19, hr⟩ := h
+  obtain ⟨h1, h2, hU, h3, h4, h5, h6, h7, h8, h9, h10, h11, h12, h13, h14, h15, h16, h17, h18, h19, hr⟩ := h
   injection hr with hr
   subst hr
   refine ⟨rfl, rfl, rfl, ?_⟩
   intro k hk
   simp only [pcRest, List.mem_cons, List.not_mem_nil, or_false] at hk
-  rcases hk with rfl | rfl | rfl | rfl | rfl | rfl | rfl | rfl | rfl | rfl | rfl | rfl | rfl
+  rcases hk with rfl | rfl | rfl | rfl | rfl | rfl | rfl | rfl | rfl | rfl | rfl | rfl | rfl | rfl
   all_goals (simp only [imp, bne])
   · exact (by decide : ∀ a b : Bool, (a && b) = false → (!a || !b) = true) _ _ h1
   · exact (by decide : ∀ s a b r : Bool, (!s && !a && !b && r) = false → (!(r && !a && !b) || s) = true) _ _ _ _ h2
@@ -145,6 +145,7 @@ theorem validateRest_ok {pb dep : Bool} {p : PathV} {prim : Option Str} {r : Pat
       simp only [Bool.false_or, decide_eq_true_eq]; omega
   · exact (by decide : ∀ a b : Bool, (!a && b) = false → (!!a || !b) = true) _ _ h18
   · exact (by decide : ∀ a b c : Bool, ((!a || !b) && !c) = false → (!(!a || !b) || c) = true) _ _ _ h19
+  · exact (by decide : ∀ a : Bool, (!a) = false → a = true) _ hU
 
 
 /-- what the source switch may change in a path -/
@@ -503,7 +504,7 @@ theorem pathConstraint_core (pb : Bool) : ∀ k ∈ pathConstraints pb, ∀ p, k
   · subst hk; rfl
   · rcases hk with rfl | rfl | rfl | rfl | rfl | rfl <;> rfl
   · rcases hk with rfl | rfl <;> rfl
-  · rcases hk with rfl | rfl | rfl | rfl | rfl | rfl | rfl | rfl | rfl | rfl | rfl | rfl | rfl <;> rfl
+  · rcases hk with rfl | rfl | rfl | rfl | rfl | rfl | rfl | rfl | rfl | rfl | rfl | rfl | rfl | rfl <;> rfl
 
 theorem any_depc_of_keys : ∀ (a b : List PathV), a.map key = b.map key → a.any (·.depc) = b.any (·.depc)
   | [], [], _ => rfl
